@@ -26,19 +26,19 @@ def opExtractRaw : Handler := fun a => do
 
 def opAnbParse : Handler := fun a => do
   let s ← getStr a "s"
-  match parseAnB s.toList with
+  -- the code after FIX_C11_3 (checked arithmetic: overflow is a syntax error)
+  match parseAnBChecked s.toList with
   | .ok (x, y) => pure (Json.arr #[Json.str "ok", jInt x, jInt y])
   | .error (.illegalCharacter _) => pure (Json.arr #[Json.str "err", Json.str "illegal"])
   | .error .invalidSyntax => pure (Json.arr #[Json.str "err", Json.str "syntax"])
-  | .error .overflow => pure (Json.str "panic")   -- debug build: overflow panics
+  | .error .overflow => pure (Json.str "panic")   -- unreachable: `parseAnBChecked` never returns it
 
 def opAnbMatch : Handler := fun a => do
   let x ← getInt a "a"
   let y ← getInt a "b"
   let i ← getNat a "i"
-  match isMatchedI32 x y i with
-  | some b => pure (Json.bool b)
-  | none => pure (Json.str "panic")
+  -- the code after FIX_C11_3 (computed in i64)
+  pure (Json.bool (isMatchedChecked x y i))
 
 def opResolveChar : Handler := fun a => do
   let c ← getOptInt a "c"
